@@ -109,6 +109,11 @@ def _classify(P, A, f, e):
         p = root[6:]
         if q in PARAM_WRITERS and p in PARAM_WRITERS[q]:
             return True, "column-filling helper writing a caller-owned parameter"
+        if f.name.startswith("_") and not f.name.startswith("__") and f.cls is not None:
+            # a private helper may fill what its caller hands in: the obligation moves to every call site, where the
+            # argument must be fresh (a call passing a shared object is itself reported, and a public caller that
+            # forwards its own parameter becomes a reported parameter writer)
+            return True, "private helper writing a caller-owned parameter (obligation at the call sites)"
         return False, "param"
     if root == "global":
         for (fq, name, fld), why in GLOBAL_WRITES.items():
